@@ -424,4 +424,31 @@ def seqJobs (cfg : Cfg) (s : St) : List Job → St × List (Job × LogE)
     let rest := seqJobs cfg r.1 js
     (rest.1, rest.2 ++ [(j, r.2)])
 
+/-! ### linearisations of an episode
+
+`merges fuel progs`: all interleavings of the threads' programs that keep every thread's
+program order; every element carries the index of its thread.  `fuel` must be at least the
+total number of jobs (`totalJobs`).  With both bodies atomic every finished schedule of the
+interleaved system is the sequential execution of one of these orders
+(Props/C06 `finished_is_linearization`). -/
+
+def totalJobs {α : Type} (ls : List (List α)) : Nat := (ls.map List.length).sum
+
+def merges {α : Type} : Nat → List (List α) → List (List (Nat × α))
+  | 0, ls => if ls.all List.isEmpty then [[]] else []
+  | fuel + 1, ls =>
+    if ls.all List.isEmpty then [[]]
+    else (List.range ls.length).flatMap fun i =>
+      match ls[i]? with
+      | some (x :: rest) => (merges fuel (ls.set i rest)).map ((i, x) :: ·)
+      | _ => []
+
+/-- sequential run of thread-tagged jobs: final state and the `Accept` answers with the index
+    of the thread that got them, oldest first -/
+def runTagged (cfg : Cfg) : St → List (Nat × Job) → St × List (Nat × Bool)
+  | s, [] => (s, [])
+  | s, (i, .accept w b) :: rest =>
+    ((runTagged cfg (accept cfg s w b).1 rest).1, (i, (accept cfg s w b).2) :: (runTagged cfg (accept cfg s w b).1 rest).2)
+  | s, (_, .event e) :: rest => runTagged cfg (pollEvent cfg s e).1 rest
+
 end AutoVerif.C06
